@@ -365,6 +365,9 @@ func (m *machine) branchNeg(c, nc *Term) bool {
 	if m.nDecisions > m.w.cfg.MaxDecisions {
 		panic(unwindOverflow{fmt.Sprintf("more than %d symbolic decisions on one path", m.w.cfg.MaxDecisions)})
 	}
+	if m.x.stopped() {
+		panic(abortRun{"budget"})
+	}
 	if m.pos < len(m.prefix) {
 		d := m.prefix[m.pos]
 		m.pos++
